@@ -194,6 +194,8 @@ def one_case(case: Dict[str, Any]) -> Dict[str, Any]:
         variants: List[Tuple[str, Optional[int], str]] = [("seed0", None, "0"), ("seed1", None, "1"), ("seed2", None, "2"), ("seed4242", None, "4242")]
         variants += [("seedrandom", None, "random")]
         variants += [("dir-orderA", 1, "0"), ("dir-orderB", 2, "0"), ("dir-orderC", 3, "0")]
+        # the directory layout (several sub-directories, three file extensions) under other hash seeds: same creation order, same enumeration order
+        variants += [("dirseed1", 1, "1"), ("dirseed4242", 1, "4242")]
         if case.get("tier") == "thorough":
             variants += [("seed%d" % s, None, str(s)) for s in (3, 5, 6, 7, 8, 9, 10, 11)]
         for label, order, hs in variants:
@@ -222,6 +224,7 @@ def one_case(case: Dict[str, Any]) -> Dict[str, Any]:
             out["note"] = "generation fails for this input (C04's concern): " + next(iter(logs.values()))[-300:]
             return out
         groups = {"hash-seed": [k for k in digests if k.startswith("seed")], "file-creation-order": [k for k in digests if k.startswith("dir-")],
+                  "hash-seed-directory-layout": ["dir-orderA"] + [k for k in digests if k.startswith("dirseed")],
                   "regenerate": ["seed0", "regenerate-over-existing"] if "regenerate-over-existing" in digests else []}
         replay_case = dict(case)
         replay_case["_sdl"] = sdl
